@@ -76,14 +76,46 @@ def R1_plugin(ctx):
         d = nosite(deep_strip(dt))
         if d[0] == "discr" and d[1][0] == "call" and d[1][1].endswith("Value::as_array") and names:
             arr_sw = (sbb, switch_target(t, names, "Some"), d[1])
-    derived_idx = _indices_from_options(F, b, tm, pushes) if len(pushes) == 2 else None
+    # (a push onto the vector that becomes the replacement is the per-combination result, not an axis vector)
+    raw_val = deep_strip(sw.val)
+    def _is_result_vec(c_):
+        r_ = deep_strip(tm.operand(c_.args[0], c_.bb))
+        while r_[0] == "mut":
+            r_ = unmut(r_)
+        v_ = raw_val
+        for _ in range(4):
+            while v_[0] == "mut":
+                v_ = unmut(v_)
+            if v_[0] == "agg" and v_[2] == "Array" and v_[3]:
+                v_ = v_[3][0][1]
+            elif v_[0] == "call" and len(v_[2]) == 1 and re.search(r"to_value|::from$|Into<U>>::into$", v_[1].split("{")[0]):
+                v_ = v_[2][0]
+        return r_[0] == "call" and v_ == r_
+    result_pushes = [c for c in pushes if _is_result_vec(c)]
+    pushes = [c for c in pushes if c not in result_pushes]
+    # one vector of (key, options) pairs instead of two aligned vectors: aligned by construction
+    pair_push = None
+    for c in pushes:
+        v_ = proj_simplify(cleanA(tm.operand(c.args[1], c.bb)))
+        if v_[0] == "tuple" and len(v_[1]) == 2:
+            pair_push = (c, v_)
+    derived_idx = _indices_from_options(F, b, tm, pushes, pair=pair_push is not None) if len(pushes) in (1, 2) else None
     ctx.check(arr_sw is not None and (len(pushes) == 3 or derived_idx is True), "three-aligned-vectors", "expected three per-axis vectors filled under `value.as_array()` (found %d pushes%s)" % (len(pushes), "; " + derived_idx if isinstance(derived_idx, str) else ""), b.where())
     if derived_idx is True:
         ctx.check(True, "axis:indices=0..len(array)", "", b.where(), detail="indices[i] = (0..options[i].len()).collect(), one per option list")
         ctx.check(True, "aligned:indices", "", b.where(), detail="mapped from the option lists, position by position")
     if arr_sw is not None:
         sbb, tsome, arr = arr_sw
-        for c in pushes:
+        if pair_push is not None:
+            c, v_ = pair_push
+            gated = b.dominates(tsome, c.bb)
+            ARRA = cleanA(arr)
+            member = ARRA[1][1] if ARRA[0] == "field" and ARRA[1][0] == "variant" else None   # the member's value: (k, v).1
+            key_ok = member is not None and member[0] == "field" and member[2] == "1" and contains(v_[1][0], lambda q: q == ("field", member[1], "0")) and not contains(v_[1][0], lambda q: q == member)
+            ctx.check(gated, "aligned:keys", "the (key, options) vector is extended for members that are not arrays", c.where(), detail="pushed only for array-valued members")
+            ctx.check(gated and key_ok, "aligned:options", "a pushed pair is not (the member's own key, the member's own array): %s" % short(v_)[:120], c.where(), detail="(key, options) of one member")
+            ctx.check(v_[1][1] == ARRA, "axis:options=the-array", "the option list of an axis is not the member's own array: %s" % short(v_[1][1])[:100], c.where(), detail="options.as_slice()")
+        for c in ([] if pair_push is not None else pushes):
             gated = b.dominates(tsome, c.bb)
             v = nosite(deep_strip(tm.operand(c.args[1], c.bb)))
             kind = "keys" if contains(v, lambda s: s[0] == "call" and s[1].endswith("to_string")) else ("indices" if contains(v, lambda s: s[0] == "agg" and s[1].endswith("Range")) or contains(v, lambda s: s[0] == "call" and "collect" in s[1]) else "options")
@@ -115,6 +147,23 @@ def R1_plugin(ctx):
     froms = [x for x in calls_in(val) if "::from{" in x[1] and "MultiSet" in x[1] or x[1].startswith("<" + MS)]
     trunc = [x[1] for x in calls_in(val) if re.search(r"Iterator>?::(take|skip|filter|step_by|dedup|filter_map)$|Itertools::(dedup|unique)", x[1])]
     okm = len(maps) >= 1 and bool(froms) and not trunc and any("collect" in x[1] for x in calls_in(val))
+    outer_loop = None
+    if not okm and len(result_pushes) == 1:
+        # for combination in MultiSet::from(&indices) { ..; result.push(instance) }: one push on every turn of a loop that
+        # takes its elements from the multiset iterator, none skipped
+        rp = result_pushes[0]
+        lp_ = innermost_loop(b, rp.bb)
+        if lp_ is not None:
+            h_, bl_ = lp_
+            latches = [a for a in b.pred[h_] if a in bl_]
+            every_turn = bool(latches) and all(b.dominates(rp.bb, a) for a in latches)
+            nxt = [c for c in b.calls() if c.bb in bl_ and c.func.get("method") == "next" and innermost_loop(b, c.bb) == lp_ and b.dominates(c.bb, rp.bb)]
+            src_ok = False
+            for c in nxt:
+                src_ = nosite(deep_strip(tm.operand(c.args[0], c.bb)))
+                src_ok = src_ok or (bool([x for x in calls_in(src_) if "MultiSet" in x[1] and "::from" in x[1]]) and not [x for x in calls_in(src_) if re.search(r"Iterator>?::(take|skip|filter|step_by|dedup|filter_map|take_while|skip_while)$|Itertools::(dedup|unique)", x[1])])
+            okm = every_turn and src_ok
+            outer_loop = lp_
     ctx.check(okm, "all-combinations", "the replacement is not a collect over all combinations of MultiSet::from(index lists): %s" % short(val)[:200], sw.where(), detail="MultiSet::from(&indices).into_iter().map(..).collect()")
     # the copy minus the grid key
     rem = [c for c in b.calls() if c.callee and c.callee.endswith("::remove") and "Map" in c.callee]
@@ -128,6 +177,9 @@ def R1_plugin(ctx):
     ctx.check(okr, "copy-minus-grid-key", "children are not built from a copy of the original object with the grid key removed", b.where(), detail="clone().remove(grid_search)")
     # overlay closure
     cl = [x for x in subterms(val) if x[0] == "closure"]
+    if outer_loop is not None and not cl:
+        # loop form: the per-combination code is the body of the loop over the combinations, in `process` itself
+        cl = [("closure", b.path, ())]
     okc = okc_walk = False
     detail = None
     for k in cl:
@@ -166,6 +218,9 @@ def R1_plugin(ctx):
         # a copy made inside the per-combination code (clone / to_owned of the source), or — in an extracted helper — the
         # helper's own parameter (the caller's copy is then checked at the helper's call, which the MIR inliner has merged)
         is_copy = kind_ == "call" and re.search(r"Clone>?::clone$|::to_owned$|::clone\{", what_) is not None
+        if is_copy and outer_loop is not None and kb is b:
+            # loop form: made on every turn of the loop over the combinations
+            is_copy = _root_call_bb(kb, c_.args[0]) in outer_loop[1]
         via_param = kind_ == "param" and "{closure" not in kb.path
         if not (is_copy or via_param):
             fresh = False
@@ -204,7 +259,7 @@ def R1_plugin(ctx):
                             d_ = d_[1] if d_[0] == "discr" else d_
                             while d_[0] == "call" and len(d_[2]) == 1 and re.search(r"Clone>?::clone$|::to_owned$", d_[1]):
                                 d_ = d_[2][0]
-                            if contains(d_, lambda q: q == I) and not (d_[0] == "at" and d_[1][0] == "at" and d_[1][2] == I and d_[2][0] == "at" and d_[2][2] == I):
+                            if contains(d_, lambda q: q == I) and not (d_[0] == "at" and _axis_part(d_[1], I) is not None and _axis_part(d_[2], I) is not None):
                                 misdisc = d_
                 if misdisc is not None:
                     aligned, why_al = False, "the object/other split looks at %s, not at options[i][combination[i]]" % short(misdisc)[:100]
@@ -219,9 +274,14 @@ def R1_plugin(ctx):
                             V_ = V_[2][0]
                         if not (contains(K_, lambda q: q == I) or contains(V_, lambda q: q == I)):
                             continue
-                        okk = K_[0] == "at" and K_[2] == I and not contains(K_[1], lambda q: q == I)
-                        okv = V_[0] == "at" and V_[1][0] == "at" and V_[1][2] == I and V_[2][0] == "at" and V_[2][2] == I and not contains(V_[1][1], lambda q: q == I) and not contains(V_[2][1], lambda q: q == I)
-                        if okk and okv and len({K_[1], V_[1][1], V_[2][1]}) == 3:
+                        # key = keys[i] (or pairs[i].0), value = options[i][combination[i]] (or pairs[i].1[combination[i]]): every
+                        # part is the i-th element of a sequence — or a component of it — and the three parts are different ones
+                        while K_[0] == "call" and len(K_[2]) == 1 and re.search(r"::as_str$|::as_ref$|Deref>?::deref$|::to_string$|::borrow$", K_[1].split("{")[0]):
+                            K_ = K_[2][0]
+                        kp = _axis_part(K_, I)
+                        okk = kp is not None
+                        okv = V_[0] == "at" and _axis_part(V_[1], I) is not None and _axis_part(V_[2], I) is not None
+                        if okk and okv and len({kp, _axis_part(V_[1], I), _axis_part(V_[2], I)}) == 3:
                             aligned = True
                         else:
                             aligned, why_al = False, "a write in the loop over the axes is not options[i][combination[i]] under keys[i]: key %s value %s" % (short(K_)[:80], short(V_)[:100])
@@ -278,7 +338,42 @@ def _flat_map_form(F, b, tm, TOP, TRUNC):
     return None
 
 
-def _indices_from_options(F, b, tm, pushes):
+def _axis_part(t, I):
+    """t is the I-th element of a sequence S that does not itself depend on I, or a tuple component of that element:
+    returns (S, component path), else None"""
+    path = ()
+    while t[0] == "field" and str(t[2]).isdigit():
+        path = (str(t[2]),) + path
+        t = t[1]
+    if t[0] == "at" and t[2] == I and not contains(t[1], lambda q: q == I):
+        return (t[1], path)
+    return None
+
+
+def _root_call_bb(body, op, depth=0):
+    """block of the call whose result is the storage root of `op` (see _storage_root), or None"""
+    if op.get("k") not in ("copy", "move") or depth > 12:
+        return None
+    l = op["place"]["l"]
+    ds = [d for d in body.defs.get(l, []) if not d[2]]
+    if len(ds) != 1:
+        return None
+    bb, j, _ = ds[0]
+    if j == "term":
+        t = body.blocks[bb]["term"]
+        ck = callee_key(t["func"]) or ""
+        if re.search(r"::index_mut$|::index$|::deref_mut$|::deref$|::as_mut$|::borrow_mut$|::get_mut$|::as_object_mut$|::as_array_mut$", ck.split("{")[0]) and t["args"]:
+            return _root_call_bb(body, t["args"][0], depth + 1)
+        return bb
+    rv = body.blocks[bb]["stmts"][j]["rv"]
+    if rv["k"] in ("ref", "rawptr"):
+        return _root_call_bb(body, {"k": "copy", "place": rv["place"]}, depth + 1)
+    if rv["k"] == "use" and rv["op"]["k"] in ("copy", "move"):
+        return _root_call_bb(body, rv["op"], depth + 1)
+    return None
+
+
+def _indices_from_options(F, b, tm, pushes, pair=False):
     """the index lists are not pushed next to the option lists but derived from them afterwards, position by position:
     indices = options.iter().map(|o| (0..o.len()).collect()).collect().  True, or a reason."""
     opts = None
@@ -299,7 +394,9 @@ def _indices_from_options(F, b, tm, pushes):
     X = [q for q in subterms(elem) if q[0] == "at" and q[2] == ("i",)]
     if len(X) != 1 or lens != {("len", X[0][1])}:
         return "the index lists do not follow one sequence"
-    want = ("agg", "std::ops::Range", "Range", (("start", ("const", "usize", 0)), ("end", ("call", "std::vec::Vec::<T, A>::len", (X[0],)))))
+    of = ("field", X[0], "1") if pair else X[0]          # the option list of position i: options[i] / pairs[i].1
+    want = ("agg", "std::ops::Range", "Range", (("start", ("const", "usize", 0)), ("end", ("call", "std::vec::Vec::<T, A>::len", (of,)))))
+    elem = rewrite(elem, lambda y: ("call", "std::vec::Vec::<T, A>::len", y[2]) if y[0] == "call" and len(y[2]) == 1 and re.search(r"slice::<impl \[T\]>::len$", y[1]) else None)
     e = elem
     while e[0] == "call" and len(e[2]) == 1 and re.search(r"Iterator>?::collect|Itertools::collect_vec|::into_iter$", e[1].split("{")[0]):
         e = e[2][0]
